@@ -53,7 +53,11 @@ def main():
     findings = load_findings()
     if args.replay:
         return replay(prop, mod, queries, args.replay)
-    results = engine.run_all(engine.split_queries(queries), prop, findings)
+    def progress(r):
+        print(f"  .. {r.get('query')} {r.get('check')} K={r.get('K', r.get('cycles'))} -> {r['status']} "
+              f"({r.get('result', '')} {r.get('solver_s', '')}s)", file=sys.stderr, flush=True)
+
+    results = engine.run_all(engine.split_queries(queries), prop, findings, on_result=progress)
     wall = time.time() - t0
     code = EXIT_OK
     nviol = 0
